@@ -34,3 +34,10 @@ def run(ctx):
     from ..engines import jsonpairs as J7E
     J7E.j7_positional_settings(ctx)
     ctx.floor("J7", 1)
+    # rules shared after round 11: the clause is necessary for this property as well
+    from ..engines import provenance as PV15
+    PV15.a7_pairing(ctx)
+    ctx.floor("A7", 12)
+    from ..engines import dispatch as DP15
+    DP15.d5b_flag_properties_forward_their_own_flag(ctx)
+    ctx.floor("D5", 3)
